@@ -20,10 +20,10 @@ _ORG_OFFSET_CACHE = {}
 
 
 def _ev(k, name="", el=0, tag="", raised=False, pos=0, outcome="", status="", out_real=True, err_real=True,
-        vis=None, lvl=0, mine=True, cid=0, undefined=False, n=0, att=0, nfor=0):
+        vis=None, lvl=0, mine=True, cid=0, undefined=False, n=0, att=0, nfor=0, via=""):
     return {"k": k, "name": name, "el": el, "tag": tag, "raised": bool(raised), "pos": pos, "outcome": outcome,
             "status": status, "out_real": bool(out_real), "err_real": bool(err_real),
-            "vis": vis or [0, 0, 0, 0, 0], "lvl": lvl, "mine": bool(mine), "cid": cid, "undefined": bool(undefined), "n": n, "att": att, "nfor": nfor}
+            "vis": vis or [0, 0, 0, 0, 0], "lvl": lvl, "mine": bool(mine), "cid": cid, "undefined": bool(undefined), "n": n, "att": att, "nfor": nfor, "via": via}
 
 
 class _Forward(object):
@@ -218,14 +218,15 @@ def run_case(case, reports=False, keep_objects=False):
         config.reporters.append(RecReporter(config))
         reg = StepRegistry()
 
-        def realise(ctx, org, k):
+        def realise(ctx, org, k, via="step"):
+            # via: the step type this function was registered for ("step" = the generic decorator)
             sc = ctx.scenario
             sid = elid(sc)
             pos = pos_of(sid, org, k)
             s = steps_of(sid)[pos - 1] if pos else {"o": "pass", "o2": "pass", "cl_id": 0}
             att = attempts.get(sid, 1)
             o = s["o"] if att <= 1 else s["o2"]
-            events.append(_ev("step", el=sid, pos=pos, outcome=o, att=att, **probe(ctx)))
+            events.append(_ev("step", el=sid, pos=pos, outcome=o, att=att, via=via, **probe(ctx)))
             print("O%d_%d" % (sid, pos))
             print("E%d_%d" % (sid, pos), file=sys.stderr)
             logging.getLogger("verif").debug("D%d_%d", sid, pos)
@@ -294,19 +295,23 @@ def run_case(case, reports=False, keep_objects=False):
             kinds = (ValueError, KeyError, RuntimeError, TypeError, LookupError)
             raise kinds[int(text) % len(kinds)]("bad argument %s" % text)
 
-        if cfg.get("async_steps"):
-            # the same step functions as coroutines (behave.api.async_step): outcome, status and order must not differ
-            from behave.api.async_step import async_run_until_complete
+        # prog["typed"]: one step function per step type (given / when / then) under the same pattern, each telling which
+        # registration it is; otherwise one generic function (the `step` decorator) serves every type
+        vias = ("given", "when", "then") if prog.get("typed") else ("step",)
+        for via in vias:
+            if cfg.get("async_steps"):
+                # the same step functions as coroutines (behave.api.async_step): outcome, status and order must not differ
+                from behave.api.async_step import async_run_until_complete
 
-            # (both forms of the decorator: bare, and with a timeout that is never reached)
-            @(async_run_until_complete(timeout=3600) if cfg.get("async_timeout") else async_run_until_complete)
-            async def realise_async(ctx, org, k):
-                import asyncio
-                await asyncio.sleep(0)
-                realise(ctx, org, k)
-            reg.steps["step"].append(ParseMatcher(realise_async, "{org:w} {k:d}", "step"))
-        else:
-            reg.steps["step"].append(ParseMatcher(lambda ctx, org, k: realise(ctx, org, k), "{org:w} {k:d}", "step"))
+                # (both forms of the decorator: bare, and with a timeout that is never reached)
+                @(async_run_until_complete(timeout=3600) if cfg.get("async_timeout") else async_run_until_complete)
+                async def realise_async(ctx, org, k, via=via):
+                    import asyncio
+                    await asyncio.sleep(0)
+                    realise(ctx, org, k, via)
+                reg.steps[via].append(ParseMatcher(realise_async, "{org:w} {k:d}", via))
+            else:
+                reg.steps[via].append(ParseMatcher(lambda ctx, org, k, via=via: realise(ctx, org, k, via), "{org:w} {k:d}", via))
         reg.steps["step"].append(ParseMatcher(lambda ctx, x, sid, pos: sub_impl(ctx, x, sid, pos), "sub {x:w} {sid:d} {pos:d}", "step"))
         reg.steps["step"].append(ParseMatcher(lambda ctx, org, k: realise(ctx, org, k), "bad {org:w} {k:Bad}", "step",
                                               custom_types={"Bad": conv_bad}))
